@@ -241,7 +241,8 @@ func (l *c10Life) config() *kafka.Config {
 	_, pc := kafka.Factory()
 	c := pc.(*kafka.Config)
 	c.Brokers = []string{l.b.addr()}
-	c.Topics = l.topics
+	// the plugin gets a list of its own: code that rewrites config.Topics must not rewrite the harness' reading of the case
+	c.Topics = append([]string(nil), l.topics...)
 	c.ConsumerGroup = "verif-c10-group"
 	c.ClientID = l.clientID
 	c.ChannelBufferSize = l.g.bufSize
